@@ -92,7 +92,7 @@ theorem findFromStart_mono {f f' : Nat} (hle : f ≤ f') (m : M) (r : R (Option 
 /-- for a pattern tied to a parsed `Pat` (`PatRel`), `MatchFromStart` never recovers an index panic, whatever
     the machine fuel -/
 theorem matchFromStart_no_panic (pat : Spec.LuaPattern.Pat) (hp : PatRel P pat) (init : Nat) (hinit : init ≤ s.size)
-    (fuel : Nat) : (matchFromStart P s fuel init 0).swallowedPanic = none := by
+    (fuel : Nat) : (matchFromStart P s fuel init 0).escapedPanic = none := by
   obtain ⟨N, hN⟩ := matchFromStart_refines P s pat hp init hinit
   cases hr : findFromStart P s fuel (initM init 0) with
   | ok v => unfold matchFromStart; rw [hr]; rfl
